@@ -152,7 +152,15 @@ func genCut(seed uint64, prop string) *Scenario {
 		nops := 0
 		for b := 0; b < nb; b++ {
 			var ops []*spb.AFTOperation
-			if g.chance(1, 2) {
+			if g.chance(1, 5) {
+				// one long request of operations that each change something: a session cut off while the
+				// server is part-way through it must stop there (at most the operation in progress completes)
+				ni, n := g.ni(), 5+g.pick(8)
+				for j := 0; j < n; j++ {
+					ops = append(ops, &spb.AFTOperation{Id: g.id(), NetworkInstance: ni, Op: spb.AFTOperation_ADD, Entry: &spb.AFTOperation_NextHop{NextHop: &aftpb.Afts_NextHopKey{
+						Index: uint64(300 + j), NextHop: &aftpb.Afts_NextHop{IpAddress: sv(fmt.Sprintf("198.18.%d.%d", g.mark()&255, j))}}}})
+				}
+			} else if g.chance(1, 2) {
 				ops = g.chain()
 			} else {
 				for j := 0; j <= g.pick(4); j++ {
@@ -455,6 +463,33 @@ func (e *env) matchPrefix(items []cutItem, minK int, what string, last *[2]uint6
 	return false
 }
 
+// prefixesMatching lists the prefix lengths k >= minK of items for which the acknowledged operations plus the
+// first k items explain the installed entries in snap (ascending). Nothing is committed to the model.
+func (e *env) prefixesMatching(items []cutItem, minK int, snap Snapshot, implHeld map[uint64]bool) []int {
+	if snap == nil {
+		return nil
+	}
+	if implHeld == nil {
+		implHeld = map[uint64]bool{}
+		for _, id := range e.implHeldIDs() {
+			implHeld[id] = true
+		}
+	}
+	q := &seqModel{m: e.model.Clone(), held: e.heldRecs(), max: e.maxElec, impl: snap, implHeld: implHeld}
+	var out []int
+	for k := 0; ; k++ {
+		if k >= minK {
+			if ok, _ := q.matches(snap); ok {
+				out = append(out, k)
+			}
+		}
+		if k == len(items) {
+			return out
+		}
+		q.apply(items[k])
+	}
+}
+
 func keysOf(m map[uint64]*opRec) []uint64 {
 	var out []uint64
 	for k := range m {
@@ -616,6 +651,24 @@ func (e *env) cutModify(script []*Step, cut *Step) {
 	if s.mc.Stream().QueuedToServer() > 0 {
 		e.probe("cut with client messages still in flight")
 	}
+	// A session that is cut off must not go on working: once the server has ended the RPC, at most the one
+	// operation that was being executed at that instant may still take effect. The installed entries are
+	// recorded at the instant the handler returns and compared, further down, with those at rest.
+	var atReturn Snapshot
+	var heldAtReturn map[uint64]bool
+	if cut.Note != "halfclose" {
+		// (observed from the handler's own task: under the coarse policy the harness would only run again once
+		// everything else has come to rest)
+		s.mc.Stream().OnFinish = func() {
+			if rc, err := e.srv.VerifRIB().RIBContents(); err == nil {
+				atReturn, _ = snapFromRIBContents(rc)
+				heldAtReturn = map[uint64]bool{}
+				for _, id := range e.implHeldIDs() {
+					heldAtReturn[id] = true
+				}
+			}
+		}
+	}
 	switch cut.Note {
 	case "halfclose":
 		e.sim.Fault("halfclose")
@@ -666,6 +719,33 @@ func (e *env) cutModify(script []*Step, cut *Step) {
 					_ = i
 				}
 			}
+		}
+	}
+	if atReturn != nil {
+		what := fmt.Sprintf("%s after %d messages sent, %d responses read", cut.Note, nsent, nread)
+		atRet := e.prefixesMatching(items, minK, atReturn, heldAtReturn)
+		rest := e.prefixesMatching(items, minK, e.implSnapshot(), nil)
+		if len(atRet) > 0 && len(rest) > 0 {
+			late, from := 0, atRet[len(atRet)-1]
+			if from > rest[0] {
+				from = rest[0]
+			}
+			for _, it := range items[from:rest[0]] {
+				if it.rec != nil {
+					late++
+				}
+			}
+			switch {
+			case late > 1:
+				e.report("C10", "departed-session-kept-working", "operations of a session were started after its RPC had ended",
+					fmt.Sprintf("%s: the installed entries when the handler returned are explained by at most %d of the %d items sent, those at rest need at least %d (%d operations in between; one may have been in progress)", what, atRet[len(atRet)-1], len(items), rest[0], late), false)
+			case late == 1:
+				e.probe("cut: the operation in progress when the RPC ended completed afterwards")
+			default:
+				e.probe("cut: nothing changed after the RPC ended")
+			}
+		} else if len(atRet) == 0 {
+			e.probe("cut: installed entries at the instant the RPC ended match no prefix (operation half applied)")
 		}
 	}
 	e.checkpoint(func() {
